@@ -254,6 +254,30 @@ func VerifWaitMemCompaction(db *DB) error { return db.compTriggerWait(db.mcompCm
 // VerifWaitTableCompaction waits until table compaction has nothing to do.
 func VerifWaitTableCompaction(db *DB) error { return db.compTriggerWait(db.tcompCmdC) }
 
+// VerifWaitIdle returns when no buffer flush is pending and the table compaction
+// goroutine has nothing left to do. A range command for a level that does not
+// exist is a no-op that the goroutine only accepts between compactions.
+func VerifWaitIdle(db *DB) error {
+	for i := 0; i < 100000; i++ {
+		if err := db.compTriggerWait(db.mcompCmdC); err != nil {
+			return err
+		}
+		if err := db.compTriggerRange(db.tcompCmdC, 1<<20, nil, nil); err != nil {
+			return err
+		}
+		if !db.tableNeedCompaction() && !VerifHasFrozenMem(db) {
+			// once more: the goroutine must be back in its select
+			if err := db.compTriggerRange(db.tcompCmdC, 1<<20, nil, nil); err != nil {
+				return err
+			}
+			if !db.tableNeedCompaction() && !VerifHasFrozenMem(db) {
+				return nil
+			}
+		}
+	}
+	return nil
+}
+
 // VerifCompactLevel runs a range compaction of one level (level < 0: all).
 func VerifCompactLevel(db *DB, level int, r util.Range) error {
 	return db.compTriggerRange(db.tcompCmdC, level, r.Start, r.Limit)
